@@ -80,6 +80,11 @@ class Shard:
     def expired(self):
         return time.monotonic() >= self.t_end
 
+    def past(self, fraction):
+        """has this share of the time budget been used? (fixed strata such as the corpus pass stop here so that the
+        generated strata always get the rest)"""
+        return time.monotonic() >= self.t0 + fraction * (self.t_end - self.t0)
+
     def ev(self, n=1):
         self.evaluations += n
 
